@@ -3,7 +3,12 @@ import Holpy.Kernel.Soundness
 Soundness of the 15 primitive rules relative to a class `C` of (model, valuation) pairs that is
 closed under the three operations the rule proofs perform on valuations: changing the value of a
 (schematic) variable, pulling back along a type instantiation, and reading instantiated variables
-off their instances.  `Soundness.lean` is the special case `C = everything`; the base logic
+off their instances.  From premises that passed `check_thm_type` and are valid for the class, every
+result that passes the checker's post-step `check_thm_type` is again valid for the class — with NO
+condition on the rule's argument: `check_thm_type` itself rejects the logical constants at
+non-instances of their declared types, so the signature condition of the result comes from the
+post-step check and that of the premises from theirs.
+`C = everything` gives `Good` (the `<rule>_sound` theorems at the end); the base logic
 (`BaseLogic.lean`: the valuations that interpret conj, disj, neg, true, false, exists, IF, Some,
 The, exists1 in the standard way) is another instance, which is what makes the `theorem` rule
 citing base-logic axioms sound.
@@ -16,8 +21,7 @@ def ValidIn (C : Model → Valuation → Prop) (M : Model) (th : Thm) : Prop :=
 
 /-- what the checker has established about a sequent it accepted, relative to the class `C` -/
 structure GoodIn (C : Model → Valuation → Prop) (th : Thm) : Prop where
-  wt : Thm.checkThmType th = true
-  sig : Thm.sigOK th = true
+  wt : Thm.checkThmTypeSig th = true
   valid : ∀ M : Model, ValidIn C M th
 
 /-- the closure conditions the rule proofs need -/
@@ -33,16 +37,10 @@ variable {C : Model → Valuation → Prop}
 
 /-- frame for the rules with two premises whose hypotheses are merged -/
 theorem good_two_in (th1 th2 : Thm) (p : Term) (h1 : GoodIn C th1) (h2 : GoodIn C th2)
-    (hwt : Thm.checkThmType (Thm.mk' p [th1.hyps, th2.hyps]) = true)
-    (hsig : sigOK p = true)
+    (hwt : Thm.checkThmTypeSig (Thm.mk' p [th1.hyps, th2.hyps]) = true)
     (hval : ∀ M ρ, Admissible M ρ → holds M ρ th1.prop → holds M ρ th2.prop → holds M ρ p) :
     GoodIn C (Thm.mk' p [th1.hyps, th2.hyps]) := by
-  refine ⟨hwt, ?_, ?_⟩
-  · rw [Thm.mk'_two, Thm.sigOK_iff]
-    refine ⟨fun h hm => ?_, hsig⟩
-    rcases Thm.addTuple_sub _ _ _ hm with hm | hm
-    · exact ((Thm.sigOK_iff _).1 h1.sig).1 h hm
-    · exact ((Thm.sigOK_iff _).1 h2.sig).1 h hm
+  refine ⟨hwt, ?_⟩
   · intro M ρ hρ hc hh
     rw [Thm.mk'_two] at hh ⊢
     apply hval M ρ hρ
@@ -58,19 +56,20 @@ theorem good_two_in (th1 th2 : Thm) (p : Term) (h1 : GoodIn C th1) (h2 : GoodIn 
 
 /-- frame for the rules with one premise that keep its hypotheses -/
 theorem good_one_in (th1 : Thm) (p : Term) (h1 : GoodIn C th1)
-    (hwt : Thm.checkThmType ⟨th1.hyps, p⟩ = true)
-    (hsig : sigOK p = true)
+    (hwt : Thm.checkThmTypeSig ⟨th1.hyps, p⟩ = true)
     (hval : ∀ M ρ, Admissible M ρ → holds M ρ th1.prop → holds M ρ p) :
     GoodIn C ⟨th1.hyps, p⟩ := by
-  refine ⟨hwt, ?_, ?_⟩
-  · rw [Thm.sigOK_iff]
-    exact ⟨((Thm.sigOK_iff _).1 h1.sig).1, hsig⟩
+  refine ⟨hwt, ?_⟩
   · intro M ρ hρ hc hh
     exact hval M ρ hρ (h1.valid M ρ hρ hc hh)
 
 
 theorem GoodIn.prop_bool {th : Thm} (h : GoodIn C th) :
-    Term.checkedGetType [] th.prop = .ok Ty.bool := ((Thm.checkThmType_iff th).1 h.wt).2
+    Term.checkedGetType [] th.prop = .ok Ty.bool := (Thm.checkThmType_typed th h.wt).2
+
+/-- the signature condition is part of what `check_thm_type` checked -/
+theorem GoodIn.sig {th : Thm} (h : GoodIn C th) : Thm.sigOK th = true :=
+  Thm.checkThmType_sig th h.wt
 
 
 theorem GoodIn.prop_sig {th : Thm} (h : GoodIn C th) : sigOK th.prop = true :=
@@ -78,22 +77,18 @@ theorem GoodIn.prop_sig {th : Thm} (h : GoodIn C th) : sigOK th.prop = true :=
 
 
 
-theorem assume_sound_in (a : Term) (ha : sigOK a = true)
-    (hwt : Thm.checkThmType (Thm.assume a) = true) : GoodIn C (Thm.assume a) := by
-  refine ⟨hwt, ?_, ?_⟩
-  · simp [Thm.sigOK, Thm.assume, ha]
+theorem assume_sound_in (a : Term)
+    (hwt : Thm.checkThmTypeSig (Thm.assume a) = true) : GoodIn C (Thm.assume a) := by
+  refine ⟨hwt, ?_⟩
   · intro M ρ hρ hc hh
     exact hh a (by simp [Thm.assume])
 
 
-theorem impliesIntr_sound_in (a : Term) (th : Thm) (ha : sigOK a = true) (hth : GoodIn C th)
-    (hwt : Thm.checkThmType (Thm.impliesIntr a th) = true) : GoodIn C (Thm.impliesIntr a th) := by
-  have hw := (Thm.checkThmType_iff _).1 hwt
+theorem impliesIntr_sound_in (a : Term) (th : Thm) (hth : GoodIn C th)
+    (hwt : Thm.checkThmTypeSig (Thm.impliesIntr a th) = true) : GoodIn C (Thm.impliesIntr a th) := by
+  have hw := Thm.checkThmType_typed _ hwt
   obtain ⟨ha', hp', -⟩ := Term.checked_mkImplies_inv [] _ a th.prop hw.2
-  refine ⟨hwt, ?_, ?_⟩
-  · rw [Thm.sigOK_iff]
-    exact ⟨fun h hm => ((Thm.sigOK_iff _).1 hth.sig).1 h (List.mem_filter.1 hm).1,
-      sigOK_mkImplies _ _ ha hth.prop_sig⟩
+  refine ⟨hwt, ?_⟩
   · intro M ρ hρ hc hh
     show holds M ρ (Term.mkImplies a th.prop)
     rw [holds_mkImplies M ρ hρ a th.prop ha' hp']
@@ -106,7 +101,7 @@ theorem impliesIntr_sound_in (a : Term) (th : Thm) (ha : sigOK a = true) (hth : 
 
 
 theorem impliesElim_sound_in (th1 th2 th : Thm) (h1 : GoodIn C th1) (h2 : GoodIn C th2)
-    (h : Thm.impliesElim th1 th2 = .ok th) (hwt : Thm.checkThmType th = true) : GoodIn C th := by
+    (h : Thm.impliesElim th1 th2 = .ok th) (hwt : Thm.checkThmTypeSig th = true) : GoodIn C th := by
   unfold Thm.impliesElim at h
   split at h
   · rename_i a b hd
@@ -114,7 +109,7 @@ theorem impliesElim_sound_in (th1 th2 th : Thm) (h1 : GoodIn C th1) (h2 : GoodIn
     · rename_i haeq
       cases h
       obtain ⟨hp, ha', hb', hsa, hsb⟩ := impl_inv _ a b _ hd h1.prop_sig h1.prop_bool
-      apply good_two_in th1 th2 b h1 h2 hwt hsb
+      apply good_two_in th1 th2 b h1 h2 hwt
       intro M ρ hρ H1 H2
       rw [hp, holds_mkImplies M ρ hρ a b ha' hb'] at H1
       exact H1 ((holds_aeq M ρ a th2.prop haeq).2 H2)
@@ -122,23 +117,21 @@ theorem impliesElim_sound_in (th1 th2 th : Thm) (h1 : GoodIn C th1) (h2 : GoodIn
   · cases h
 
 
-theorem reflexive_sound_in (x : Term) (th : Thm) (hx : sigOK x = true)
-    (h : Thm.reflexive x = .ok th) (hwt : Thm.checkThmType th = true) : GoodIn C th := by
+theorem reflexive_sound_in (x : Term) (th : Thm)
+    (h : Thm.reflexive x = .ok th) (hwt : Thm.checkThmTypeSig th = true) : GoodIn C th := by
   unfold Thm.reflexive at h
   obtain ⟨e, he, h⟩ := Thm.liftT_bind_ok _ _ _ h
   cases h
   obtain ⟨T, hT, rfl⟩ := Term.mkEq_inv _ _ _ he
-  have hw := (Thm.checkThmType_iff _).1 hwt
+  have hw := Thm.checkThmType_typed _ hwt
   obtain ⟨hx1, -, -⟩ := Term.checked_eqAt_inv [] T _ x x hw.2
-  refine ⟨hwt, ?_, ?_⟩
-  · rw [Thm.sigOK_iff]
-    exact ⟨fun h hm => (nomatch hm), sigOK_eqAt T x x hx hx⟩
+  refine ⟨hwt, ?_⟩
   · intro M ρ hρ hc hh
     exact (holds_eqAt M ρ hρ T x x hx1 hx1).2 rfl
 
 
 theorem symmetric_sound_in (th1 th : Thm) (h1 : GoodIn C th1)
-    (h : Thm.symmetric th1 = .ok th) (hwt : Thm.checkThmType th = true) : GoodIn C th := by
+    (h : Thm.symmetric th1 = .ok th) (hwt : Thm.checkThmTypeSig th = true) : GoodIn C th := by
   unfold Thm.symmetric at h
   split at h
   · rename_i x y hd
@@ -147,7 +140,7 @@ theorem symmetric_sound_in (th1 th : Thm) (h1 : GoodIn C th1)
     obtain ⟨T, hp, hx, hy, hsx, hsy⟩ := eq_inv _ x y _ hd h1.prop_sig h1.prop_bool
     have := Term.mkEq_checked y x e T hy he
     subst this
-    apply good_one_in th1 _ h1 hwt (sigOK_eqAt _ _ _ hsy hsx)
+    apply good_one_in th1 _ h1 hwt
     intro M ρ hρ H
     rw [hp, holds_eqAt M ρ hρ T x y hx hy] at H
     rw [holds_eqAt M ρ hρ T y x hy hx]
@@ -156,7 +149,7 @@ theorem symmetric_sound_in (th1 th : Thm) (h1 : GoodIn C th1)
 
 
 theorem transitive_sound_in (th1 th2 th : Thm) (h1 : GoodIn C th1) (h2 : GoodIn C th2)
-    (h : Thm.transitive th1 th2 = .ok th) (hwt : Thm.checkThmType th = true) : GoodIn C th := by
+    (h : Thm.transitive th1 th2 = .ok th) (hwt : Thm.checkThmTypeSig th = true) : GoodIn C th := by
   unfold Thm.transitive at h
   split at h
   · rename_i x y1 y2 z hd1 hd2
@@ -174,7 +167,7 @@ theorem transitive_sound_in (th1 th2 th : Thm) (h1 : GoodIn C th1) (h2 : GoodIn 
       subst hT
       have := Term.mkEq_checked x z e T1 hx he
       subst this
-      apply good_two_in th1 th2 _ h1 h2 hwt (sigOK_eqAt _ _ _ hsx hsz)
+      apply good_two_in th1 th2 _ h1 h2 hwt
       intro M ρ hρ H1 H2
       rw [hp1, holds_eqAt M ρ hρ T1 x y1 hx hy1] at H1
       rw [hp2, holds_eqAt M ρ hρ T1 y2 z hy2 hz] at H2
@@ -184,7 +177,7 @@ theorem transitive_sound_in (th1 th2 th : Thm) (h1 : GoodIn C th1) (h2 : GoodIn 
 
 
 theorem equalIntr_sound_in (th1 th2 th : Thm) (h1 : GoodIn C th1) (h2 : GoodIn C th2)
-    (h : Thm.equalIntr th1 th2 = .ok th) (hwt : Thm.checkThmType th = true) : GoodIn C th := by
+    (h : Thm.equalIntr th1 th2 = .ok th) (hwt : Thm.checkThmTypeSig th = true) : GoodIn C th := by
   unfold Thm.equalIntr at h
   split at h
   · rename_i a1 b1 b2 a2 hd1 hd2
@@ -197,7 +190,7 @@ theorem equalIntr_sound_in (th1 th2 th : Thm) (h1 : GoodIn C th1) (h2 : GoodIn C
       obtain ⟨hp2, hb2, ha2, hsb2, hsa2⟩ := impl_inv _ b2 a2 _ hd2 h2.prop_sig h2.prop_bool
       have := Term.mkEq_checked a1 b1 e _ ha1 he
       subst this
-      apply good_two_in th1 th2 _ h1 h2 hwt (sigOK_eqAt _ _ _ hsa1 hsb1)
+      apply good_two_in th1 th2 _ h1 h2 hwt
       intro M ρ hρ H1 H2
       rw [hp1, holds_mkImplies M ρ hρ a1 b1 ha1 hb1] at H1
       rw [hp2, holds_mkImplies M ρ hρ b2 a2 hb2 ha2] at H2
@@ -214,7 +207,7 @@ theorem equalIntr_sound_in (th1 th2 th : Thm) (h1 : GoodIn C th1) (h2 : GoodIn C
 
 
 theorem equalElim_sound_in (th1 th2 th : Thm) (h1 : GoodIn C th1) (h2 : GoodIn C th2)
-    (h : Thm.equalElim th1 th2 = .ok th) (hwt : Thm.checkThmType th = true) : GoodIn C th := by
+    (h : Thm.equalElim th1 th2 = .ok th) (hwt : Thm.checkThmTypeSig th = true) : GoodIn C th := by
   unfold Thm.equalElim at h
   split at h
   · rename_i a b hd
@@ -222,7 +215,7 @@ theorem equalElim_sound_in (th1 th2 th : Thm) (h1 : GoodIn C th1) (h2 : GoodIn C
     · rename_i haeq
       cases h
       obtain ⟨T, hp, ha', hb', hsa, hsb⟩ := eq_inv _ a b _ hd h1.prop_sig h1.prop_bool
-      apply good_two_in th1 th2 b h1 h2 hwt hsb
+      apply good_two_in th1 th2 b h1 h2 hwt
       intro M ρ hρ H1 H2
       rw [hp, holds_eqAt M ρ hρ T a b ha' hb'] at H1
       have H3 := (holds_aeq M ρ a th2.prop haeq).2 H2
@@ -233,7 +226,7 @@ theorem equalElim_sound_in (th1 th2 th : Thm) (h1 : GoodIn C th1) (h2 : GoodIn C
 
 
 theorem combination_sound_in (th1 th2 th : Thm) (h1 : GoodIn C th1) (h2 : GoodIn C th2)
-    (h : Thm.combination th1 th2 = .ok th) (hwt : Thm.checkThmType th = true) : GoodIn C th := by
+    (h : Thm.combination th1 th2 = .ok th) (hwt : Thm.checkThmTypeSig th = true) : GoodIn C th := by
   unfold Thm.combination at h
   split at h
   · rename_i f g x y hd1 hd2
@@ -249,11 +242,10 @@ theorem combination_sound_in (th1 th2 th : Thm) (h1 : GoodIn C th1) (h2 : GoodIn
           obtain ⟨T1, hp1, hf, hg, hsf, hsg⟩ := eq_inv _ f g _ hd1 h1.prop_sig h1.prop_bool
           obtain ⟨T2, hp2, hx, hy, hsx, hsy⟩ := eq_inv _ x y _ hd2 h2.prop_sig h2.prop_bool
           obtain ⟨T, hT, rfl⟩ := Term.mkEq_inv _ _ _ he
-          have hw := (Thm.checkThmType_iff _).1 hwt
+          have hw := Thm.checkThmType_typed _ hwt
           rw [Thm.mk'_two] at hw
           obtain ⟨hfx, hgy, -⟩ := Term.checked_eqAt_inv [] T _ _ _ hw.2
           apply good_two_in th1 th2 _ h1 h2 hwt
-            (sigOK_eqAt _ _ _ (by simp [sigOK, hsf, hsx]) (by simp [sigOK, hsg, hsy]))
           intro M ρ hρ H1 H2
           rw [hp1, holds_eqAt M ρ hρ T1 f g hf hg] at H1
           rw [hp2, holds_eqAt M ρ hρ T2 x y hx hy] at H2
@@ -265,8 +257,8 @@ theorem combination_sound_in (th1 th2 th : Thm) (h1 : GoodIn C th1) (h2 : GoodIn
   · cases h
 
 
-theorem betaConv_sound_in (t : Term) (th : Thm) (ht : sigOK t = true)
-    (h : Thm.betaConv t = .ok th) (hwt : Thm.checkThmType th = true) : GoodIn C th := by
+theorem betaConv_sound_in (t : Term) (th : Thm)
+    (h : Thm.betaConv t = .ok th) (hwt : Thm.checkThmTypeSig th = true) : GoodIn C th := by
   unfold Thm.betaConv at h
   obtain ⟨t', ht', h⟩ := Thm.catchTerm_bind_ok _ _ _ h
   obtain ⟨e, he, h⟩ := Thm.liftT_bind_ok _ _ _ h
@@ -277,20 +269,16 @@ theorem betaConv_sound_in (t : Term) (th : Thm) (ht : sigOK t = true)
     simp only [Term.substBound] at ht'
     cases ht'
     obtain ⟨S, hS, rfl⟩ := Term.mkEq_inv _ _ _ he
-    have hw := (Thm.checkThmType_iff _).1 hwt
+    have hw := Thm.checkThmType_typed _ hwt
     obtain ⟨hl, hr, -⟩ := Term.checked_eqAt_inv [] S _ _ _ hw.2
-    simp only [sigOK, Bool.and_eq_true] at ht
-    refine ⟨hwt, ?_, ?_⟩
-    · rw [Thm.sigOK_iff]
-      refine ⟨fun h hm => (nomatch hm), sigOK_eqAt S _ _ ?_ (sigOK_substBoundAt a ht.2 b ht.1 0)⟩
-      simp [sigOK, ht.1, ht.2]
+    refine ⟨hwt, ?_⟩
     · intro M ρ hρ hc hh
       exact (holds_eqAt M ρ hρ S _ _ hl hr).2 (sem_beta M ρ hρ [] [] (EnvOK.nil_snd M) x T S b a hl).symm
   · cases ht'
 
 
-theorem forallElim_sound_in (s : Term) (th1 th : Thm) (hs : sigOK s = true) (h1 : GoodIn C th1)
-    (h : Thm.forallElim s th1 = .ok th) (hwt : Thm.checkThmType th = true) : GoodIn C th := by
+theorem forallElim_sound_in (s : Term) (th1 th : Thm) (h1 : GoodIn C th1)
+    (h : Thm.forallElim s th1 = .ok th) (hwt : Thm.checkThmTypeSig th = true) : GoodIn C th := by
   unfold Thm.forallElim at h
   split at h
   · rename_i x T b hd
@@ -307,9 +295,9 @@ theorem forallElim_sound_in (s : Term) (th1 th : Thm) (hs : sigOK s = true) (h1 
       obtain ⟨T', hp, habs, hsabs⟩ := all_inv _ _ _ hd h1.prop_sig h1.prop_bool
       obtain ⟨tb, hb, hfn⟩ := Term.checked_abs_inv_snd _ _ _ _ _ habs
       obtain ⟨rfl, rfl⟩ := Ty.fn_inj hfn
-      have hw := (Thm.checkThmType_iff _).1 hwt
+      have hw := Thm.checkThmType_typed _ hwt
       simp only [sigOK] at hsabs
-      apply good_one_in th1 _ h1 hwt (sigOK_substBoundAt s hs b hsabs 0)
+      apply good_one_in th1 _ h1 hwt
       intro M ρ hρ H
       rw [hp] at H
       unfold Term.allAt at H
@@ -342,7 +330,7 @@ theorem varKey_lt_two {x : Term} {k : Nat} {n : String} {T : Ty} (hx : varKey x 
   rcases varKey_cases hx with ⟨-, rfl⟩ | ⟨-, rfl⟩ <;> decide
 
 theorem forallIntr_sound_in (hcl : ClosedClass C) (x : Term) (th1 th : Thm) (h1 : GoodIn C th1)
-    (h : Thm.forallIntr x th1 = .ok th) (hwt : Thm.checkThmType th = true) : GoodIn C th := by
+    (h : Thm.forallIntr x th1 = .ok th) (hwt : Thm.checkThmTypeSig th = true) : GoodIn C th := by
   unfold Thm.forallIntr at h
   split at h
   · cases h
@@ -353,9 +341,7 @@ theorem forallIntr_sound_in (hcl : ClosedClass C) (x : Term) (th1 th : Thm) (h1 
       cases h
       obtain ⟨hvl, l, hl, rfl⟩ := Term.mkForall_inv_snd _ _ _ hq
       obtain ⟨k, n, hk⟩ := varKey_of_isVarLike x hvl
-      refine ⟨hwt, ?_, ?_⟩
-      · rw [Thm.sigOK_iff]
-        exact ⟨((Thm.sigOK_iff _).1 h1.sig).1, sigOK_allAt _ _ (sigOK_mkLambda x _ l hl h1.prop_sig)⟩
+      refine ⟨hwt, ?_⟩
       · intro M ρ hρ hc hh
         show holds M ρ (Term.allAt (Term.typeOfAtom x) l)
         rw [holds_mkForall M ρ hρ x k n _ hk th1.prop _ h1.prop_bool hq]
@@ -365,7 +351,7 @@ theorem forallIntr_sound_in (hcl : ClosedClass C) (x : Term) (th1 th : Thm) (h1 
 
 
 theorem abstraction_sound_in (hcl : ClosedClass C) (x : Term) (th1 th : Thm) (h1 : GoodIn C th1)
-    (h : Thm.abstraction x th1 = .ok th) (hwt : Thm.checkThmType th = true) : GoodIn C th := by
+    (h : Thm.abstraction x th1 = .ok th) (hwt : Thm.checkThmTypeSig th = true) : GoodIn C th := by
   unfold Thm.abstraction at h
   split at h
   · cases h
@@ -383,10 +369,7 @@ theorem abstraction_sound_in (hcl : ClosedClass C) (x : Term) (th1 th : Thm) (h1
       have c2 := checked_mkLambda x k n _ hk t2 l2 S ht2 hl2
       have := Term.mkEq_checked l1 l2 e _ c1 he
       subst this
-      refine ⟨hwt, ?_, ?_⟩
-      · rw [Thm.sigOK_iff]
-        exact ⟨((Thm.sigOK_iff _).1 h1.sig).1,
-          sigOK_eqAt _ _ _ (sigOK_mkLambda x _ l1 hl1 hs1) (sigOK_mkLambda x _ l2 hl2 hs2)⟩
+      refine ⟨hwt, ?_⟩
       · intro M ρ hρ hc hh
         show holds M ρ (Term.eqAt _ l1 l2)
         rw [holds_eqAt M ρ hρ _ l1 l2 c1 c2]
@@ -405,15 +388,9 @@ theorem abstraction_sound_in (hcl : ClosedClass C) (x : Term) (th1 th : Thm) (h1
 
 
 theorem substType_sound_in (hcl : ClosedClass C) (σ : Ty.TyInst) (th : Thm) (hth : GoodIn C th)
-    (hwt : Thm.checkThmType (Thm.substType σ th) = true) : GoodIn C (Thm.substType σ th) := by
-  have hw := (Thm.checkThmType_iff th).1 hth.wt
-  refine ⟨hwt, ?_, ?_⟩
-  · unfold Thm.substType
-    rw [Thm.mk'_one, Thm.sigOK_iff]
-    refine ⟨?_, sigOK_substType σ _ hth.prop_sig⟩
-    intro h hm
-    obtain ⟨h0, hm0, rfl⟩ := List.mem_map.1 hm
-    exact sigOK_substType σ h0 (((Thm.sigOK_iff _).1 hth.sig).1 h0 hm0)
+    (hwt : Thm.checkThmTypeSig (Thm.substType σ th) = true) : GoodIn C (Thm.substType σ th) := by
+  have hw := Thm.checkThmType_typed th hth.wt
+  refine ⟨hwt, ?_⟩
   · intro M ρ hρ hc hh
     unfold Thm.substType at hh ⊢
     rw [Thm.mk'_one] at hh ⊢
@@ -426,12 +403,10 @@ theorem substType_sound_in (hcl : ClosedClass C) (σ : Ty.TyInst) (th : Thm) (ht
 
 
 theorem substitution_sound_in (hcl : ClosedClass C) (inst : Term.Inst) (th1 th : Thm) (h1 : GoodIn C th1)
-    (hi : Arg.sigOK (.inst inst) = true)
-    (h : Thm.substitution inst th1 = .ok th) (hwt : Thm.checkThmType th = true) : GoodIn C th := by
+    (h : Thm.substitution inst th1 = .ok th) (hwt : Thm.checkThmTypeSig th = true) : GoodIn C th := by
   obtain ⟨σ, hs, p, rfl, hF, hp, hty⟩ := Thm.substitution_spec inst th1 th h
   rw [Thm.mk'_one] at hwt ⊢
-  have hw1 := (Thm.checkThmType_iff th1).1 h1.wt
-  simp only [Arg.sigOK, Bool.and_eq_true, List.all_eq_true] at hi
+  have hw1 := Thm.checkThmType_typed th1 h1.wt
   have key : ∀ t0 t1, t0 ∈ th1.hyps ++ [th1.prop] → Term.checkedGetType [] t0 = .ok Ty.bool →
       Term.substRec { inst with tyinst := σ } (Term.substType σ t0) = .ok t1 → ∀ M ρ,
       (holds M ρ t1 ↔
@@ -447,14 +422,7 @@ theorem substitution_sound_in (hcl : ClosedClass C) (inst : Term.Inst) (th1 th :
     rw [← holds_substType M _ σ t0 _ ht0]
     unfold holds
     rw [e1]
-  refine ⟨hwt, ?_, ?_⟩
-  · rw [Thm.sigOK_iff]
-    constructor
-    · intro h' hm'
-      obtain ⟨h0, hm0, hr⟩ := hF.exists_left h' hm'
-      exact sigOK_substRec _ _ h' hr
-        (sigOK_substType σ h0 (((Thm.sigOK_iff _).1 h1.sig).1 h0 hm0)) hi.1 hi.2
-    · exact sigOK_substRec _ _ p hp (sigOK_substType σ _ h1.prop_sig) hi.1 hi.2
+  refine ⟨hwt, ?_⟩
   · intro M ρ hρ hc hh
     show holds M ρ p
     rw [key th1.prop p (List.mem_append_right _ (List.mem_singleton.2 rfl)) hw1.2 hp M ρ]
@@ -468,10 +436,36 @@ theorem substitution_sound_in (hcl : ClosedClass C) (inst : Term.Inst) (th1 th :
 
 /-! ### one checker step, and scripts -/
 
+/-- the result of a primitive rule that passes `check_thm_type` is good for the class when the
+premises are -/
+theorem applyRule_sound_in (hcl : ClosedClass C) (rule : String) (arg : Arg) (prems : List Thm)
+    (th : Thm) (hp : ∀ p ∈ prems, GoodIn C p) (hr : applyRule rule arg prems = .ok th)
+    (hwt : Thm.checkThmTypeSig th = true) : GoodIn C th := by
+  unfold applyRule at hr
+  split at hr
+  all_goals first
+    | (cases hr; first
+        | exact assume_sound_in _ hwt
+        | exact impliesIntr_sound_in _ _ (hp _ (by simp)) hwt
+        | exact substType_sound_in hcl _ _ (hp _ (by simp)) hwt)
+    | exact impliesElim_sound_in _ _ _ (hp _ (by simp)) (hp _ (by simp)) hr hwt
+    | exact reflexive_sound_in _ _ hr hwt
+    | exact symmetric_sound_in _ _ (hp _ (by simp)) hr hwt
+    | exact transitive_sound_in _ _ _ (hp _ (by simp)) (hp _ (by simp)) hr hwt
+    | exact combination_sound_in _ _ _ (hp _ (by simp)) (hp _ (by simp)) hr hwt
+    | exact equalIntr_sound_in _ _ _ (hp _ (by simp)) (hp _ (by simp)) hr hwt
+    | exact equalElim_sound_in _ _ _ (hp _ (by simp)) (hp _ (by simp)) hr hwt
+    | exact substitution_sound_in hcl _ _ _ (hp _ (by simp)) hr hwt
+    | exact betaConv_sound_in _ _ hr hwt
+    | exact abstraction_sound_in hcl _ _ _ (hp _ (by simp)) hr hwt
+    | exact forallIntr_sound_in hcl _ _ _ (hp _ (by simp)) hr hwt
+    | exact forallElim_sound_in _ _ _ (hp _ (by simp)) hr hwt
+    | (split at hr <;> cases hr)
+
 /-- One step of the checker on a primitive rule, relative to a closed class: premises good for
-the class give an accepted result that is good for the class. -/
+the class give an accepted result that is good for the class — whatever the argument is. -/
 theorem prim_sound_in (hcl : ClosedClass C) (rule : String) (arg : Arg) (prems : List Thm) (th : Thm)
-    (hp : ∀ p ∈ prems, GoodIn C p) (ha : Arg.sigOK arg = true)
+    (hp : ∀ p ∈ prems, GoodIn C p)
     (h : checkStep rule arg prems = .ok th) : GoodIn C th := by
   unfold checkStep at h
   cases hr : applyRule rule arg prems with
@@ -479,29 +473,10 @@ theorem prim_sound_in (hcl : ClosedClass C) (rule : String) (arg : Arg) (prems :
   | ok th0 =>
     rw [hr] at h
     simp only [bind, Except.bind] at h
-    by_cases hwt : Thm.checkThmType th0 = true
+    by_cases hwt : Thm.checkThmTypeSig th0 = true
     · rw [if_pos hwt] at h
       cases h
-      unfold applyRule at hr
-      split at hr
-      all_goals first
-        | (cases hr; first
-            | exact assume_sound_in _ ha hwt
-            | exact impliesIntr_sound_in _ _ ha (hp _ (by simp)) hwt
-            | exact substType_sound_in hcl _ _ (hp _ (by simp)) hwt)
-        | exact impliesElim_sound_in _ _ _ (hp _ (by simp)) (hp _ (by simp)) hr hwt
-        | exact reflexive_sound_in _ _ ha hr hwt
-        | exact symmetric_sound_in _ _ (hp _ (by simp)) hr hwt
-        | exact transitive_sound_in _ _ _ (hp _ (by simp)) (hp _ (by simp)) hr hwt
-        | exact combination_sound_in _ _ _ (hp _ (by simp)) (hp _ (by simp)) hr hwt
-        | exact equalIntr_sound_in _ _ _ (hp _ (by simp)) (hp _ (by simp)) hr hwt
-        | exact equalElim_sound_in _ _ _ (hp _ (by simp)) (hp _ (by simp)) hr hwt
-        | exact substitution_sound_in hcl _ _ _ (hp _ (by simp)) ha hr hwt
-        | exact betaConv_sound_in _ _ ha hr hwt
-        | exact abstraction_sound_in hcl _ _ _ (hp _ (by simp)) hr hwt
-        | exact forallIntr_sound_in hcl _ _ _ (hp _ (by simp)) hr hwt
-        | exact forallElim_sound_in _ _ _ ha (hp _ (by simp)) hr hwt
-        | (split at hr <;> cases hr)
+      exact applyRule_sound_in hcl rule arg prems th hp hr hwt
     · rw [if_neg hwt] at h
       cases h
 
@@ -528,7 +503,7 @@ theorem lookupPrems_mem_acc (acc : List Thm) (l : List Nat) (ps : List Thm)
         | tail _ hp1 => exact ih ps' hl p hp1
 
 theorem runScript_sound_in (hcl : ClosedClass C) (steps : List Step) (acc res : List Thm)
-    (hacc : ∀ th ∈ acc, GoodIn C th) (hs : ∀ s ∈ steps, Arg.sigOK s.arg = true)
+    (hacc : ∀ th ∈ acc, GoodIn C th)
     (h : runScript steps acc = .ok res) : ∀ th ∈ res, GoodIn C th := by
   induction steps generalizing acc with
   | nil =>
@@ -550,8 +525,8 @@ theorem runScript_sound_in (hcl : ClosedClass C) (steps : List Step) (acc res : 
         have hprems : ∀ p ∈ prems, GoodIn C p :=
           fun p hpm => hacc p (lookupPrems_mem_acc acc s.prevs prems hm p hpm)
         have hgood : GoodIn C th :=
-          prim_sound_in hcl s.rule s.arg prems th hprems (hs s (by simp)) hc
-        apply ih (acc ++ [th]) _ (fun s' hs' => hs s' (by simp [hs'])) h
+          prim_sound_in hcl s.rule s.arg prems th hprems hc
+        apply ih (acc ++ [th]) _ h
         intro th' hth'
         rcases List.mem_append.1 hth' with h1 | h1
         · exact hacc th' h1
@@ -559,9 +534,8 @@ theorem runScript_sound_in (hcl : ClosedClass C) (steps : List Step) (acc res : 
 
 /-- every sequent of an accepted script from primitive rules is good for every closed class -/
 theorem check_proof_sound_in (hcl : ClosedClass C) (steps : List Step) (res : List Thm)
-    (hs : ∀ s ∈ steps, Arg.sigOK s.arg = true) (h : runScript steps [] = .ok res) :
-    ∀ th ∈ res, GoodIn C th :=
-  runScript_sound_in hcl steps [] res (fun _ h => by cases h) hs h
+    (h : runScript steps [] = .ok res) : ∀ th ∈ res, GoodIn C th :=
+  runScript_sound_in hcl steps [] res (fun _ h => by cases h) h
 
 /-! ### sanity: the unrestricted class gives back `Good` -/
 
@@ -569,53 +543,202 @@ theorem closedClass_top : ClosedClass (fun _ _ => True) :=
   ⟨fun _ _ _ _ _ _ _ _ => trivial, fun _ _ _ _ _ => trivial, fun _ _ _ _ => trivial⟩
 
 theorem goodIn_top_iff (th : Thm) : GoodIn (fun _ _ => True) th ↔ Good th :=
-  ⟨fun h => ⟨h.wt, h.sig, fun M ρ hρ hh => h.valid M ρ hρ trivial hh⟩,
-   fun h => ⟨h.wt, h.sig, fun M ρ hρ _ hh => h.valid M ρ hρ hh⟩⟩
+  ⟨fun h => ⟨h.wt, fun M ρ hρ hh => h.valid M ρ hρ trivial hh⟩,
+   fun h => ⟨h.wt, fun M ρ hρ _ hh => h.valid M ρ hρ hh⟩⟩
 
 /-- `prim_sound` (C01/Props.lean) is the instance `C = everything` of `prim_sound_in` -/
 theorem prim_sound_of_in (rule : String) (arg : Arg) (prems : List Thm) (th : Thm)
-    (hp : ∀ p ∈ prems, Good p) (ha : Arg.sigOK arg = true)
+    (hp : ∀ p ∈ prems, Good p)
     (h : checkStep rule arg prems = .ok th) : Good th :=
   (goodIn_top_iff th).1 (prim_sound_in closedClass_top rule arg prems th
-    (fun p hm => (goodIn_top_iff p).2 (hp p hm)) ha h)
+    (fun p hm => (goodIn_top_iff p).2 (hp p hm)) h)
+
+/-! ### the 15 rules for `Good` (= `GoodIn` of the unrestricted class) -/
+
+private theorem toTop {th : Thm} (h : Good th) : GoodIn (fun _ _ => True) th := (goodIn_top_iff th).2 h
+private theorem ofTop {th : Thm} (h : GoodIn (fun _ _ => True) th) : Good th := (goodIn_top_iff th).1 h
+
+theorem assume_sound (a : Term) (hwt : Thm.checkThmTypeSig (Thm.assume a) = true) :
+    Good (Thm.assume a) := ofTop (assume_sound_in a hwt)
+
+theorem impliesIntr_sound (a : Term) (th : Thm) (hth : Good th)
+    (hwt : Thm.checkThmTypeSig (Thm.impliesIntr a th) = true) : Good (Thm.impliesIntr a th) :=
+  ofTop (impliesIntr_sound_in a th (toTop hth) hwt)
+
+theorem impliesElim_sound (th1 th2 th : Thm) (h1 : Good th1) (h2 : Good th2)
+    (h : Thm.impliesElim th1 th2 = .ok th) (hwt : Thm.checkThmTypeSig th = true) : Good th :=
+  ofTop (impliesElim_sound_in th1 th2 th (toTop h1) (toTop h2) h hwt)
+
+theorem reflexive_sound (x : Term) (th : Thm)
+    (h : Thm.reflexive x = .ok th) (hwt : Thm.checkThmTypeSig th = true) : Good th :=
+  ofTop (reflexive_sound_in x th h hwt)
+
+theorem symmetric_sound (th1 th : Thm) (h1 : Good th1)
+    (h : Thm.symmetric th1 = .ok th) (hwt : Thm.checkThmTypeSig th = true) : Good th :=
+  ofTop (symmetric_sound_in th1 th (toTop h1) h hwt)
+
+theorem transitive_sound (th1 th2 th : Thm) (h1 : Good th1) (h2 : Good th2)
+    (h : Thm.transitive th1 th2 = .ok th) (hwt : Thm.checkThmTypeSig th = true) : Good th :=
+  ofTop (transitive_sound_in th1 th2 th (toTop h1) (toTop h2) h hwt)
+
+theorem equalIntr_sound (th1 th2 th : Thm) (h1 : Good th1) (h2 : Good th2)
+    (h : Thm.equalIntr th1 th2 = .ok th) (hwt : Thm.checkThmTypeSig th = true) : Good th :=
+  ofTop (equalIntr_sound_in th1 th2 th (toTop h1) (toTop h2) h hwt)
+
+theorem equalElim_sound (th1 th2 th : Thm) (h1 : Good th1) (h2 : Good th2)
+    (h : Thm.equalElim th1 th2 = .ok th) (hwt : Thm.checkThmTypeSig th = true) : Good th :=
+  ofTop (equalElim_sound_in th1 th2 th (toTop h1) (toTop h2) h hwt)
+
+theorem combination_sound (th1 th2 th : Thm) (h1 : Good th1) (h2 : Good th2)
+    (h : Thm.combination th1 th2 = .ok th) (hwt : Thm.checkThmTypeSig th = true) : Good th :=
+  ofTop (combination_sound_in th1 th2 th (toTop h1) (toTop h2) h hwt)
+
+theorem betaConv_sound (t : Term) (th : Thm)
+    (h : Thm.betaConv t = .ok th) (hwt : Thm.checkThmTypeSig th = true) : Good th :=
+  ofTop (betaConv_sound_in t th h hwt)
+
+theorem forallElim_sound (s : Term) (th1 th : Thm) (h1 : Good th1)
+    (h : Thm.forallElim s th1 = .ok th) (hwt : Thm.checkThmTypeSig th = true) : Good th :=
+  ofTop (forallElim_sound_in s th1 th (toTop h1) h hwt)
+
+theorem forallIntr_sound (x : Term) (th1 th : Thm) (h1 : Good th1)
+    (h : Thm.forallIntr x th1 = .ok th) (hwt : Thm.checkThmTypeSig th = true) : Good th :=
+  ofTop (forallIntr_sound_in closedClass_top x th1 th (toTop h1) h hwt)
+
+theorem abstraction_sound (x : Term) (th1 th : Thm) (h1 : Good th1)
+    (h : Thm.abstraction x th1 = .ok th) (hwt : Thm.checkThmTypeSig th = true) : Good th :=
+  ofTop (abstraction_sound_in closedClass_top x th1 th (toTop h1) h hwt)
+
+theorem substType_sound (σ : Ty.TyInst) (th : Thm) (hth : Good th)
+    (hwt : Thm.checkThmTypeSig (Thm.substType σ th) = true) : Good (Thm.substType σ th) :=
+  ofTop (substType_sound_in closedClass_top σ th (toTop hth) hwt)
+
+theorem substitution_sound (inst : Term.Inst) (th1 th : Thm) (h1 : Good th1)
+    (h : Thm.substitution inst th1 = .ok th) (hwt : Thm.checkThmTypeSig th = true) : Good th :=
+  ofTop (substitution_sound_in closedClass_top inst th1 th (toTop h1) h hwt)
 
 /-- a smaller class has more good sequents -/
 theorem GoodIn.mono {C D : Model → Valuation → Prop} (hCD : ∀ M ρ, D M ρ → C M ρ) {th : Thm}
     (h : GoodIn C th) : GoodIn D th :=
-  ⟨h.wt, h.sig, fun M ρ hρ hd hh => h.valid M ρ hρ (hCD M ρ hd) hh⟩
+  ⟨h.wt, fun M ρ hρ hd hh => h.valid M ρ hρ (hCD M ρ hd) hh⟩
 
-/-! ### the `theorem` rule: citing theorems that are good for the class -/
+/-! ### the rest of the checker: `theorem`, `variable`, stated sequents -/
 
-def ArgAx.sigOK : ArgAx → Bool
-  | .prim a => a.sigOK
-  | .name _ => true
+theorem Thm.memAeq_iff (t : Term) (l : List Term) :
+    Thm.memAeq t l = true ↔ ∃ h ∈ l, Term.aeq t h = true := by
+  unfold Thm.memAeq
+  rw [List.any_eq_true]
 
-/-- One checker step that may cite a stored theorem: if every stored theorem is good for the
-closed class, so is every accepted result. -/
-theorem checkStepAx_sound_in (hcl : ClosedClass C) (axs : List (String × Thm))
-    (hax : ∀ p ∈ axs, GoodIn C p.2) (rule : String) (arg : ArgAx) (prems : List Thm) (th : Thm)
-    (hp : ∀ p ∈ prems, GoodIn C p) (ha : arg.sigOK = true)
-    (h : checkStepAx axs rule arg prems = .ok th) : GoodIn C th := by
-  unfold checkStepAx at h
+theorem Thm.canProve_iff (r st : Thm) : Thm.canProve r st = true ↔
+    Term.aeq r.prop st.prop = true ∧ ∀ h ∈ r.hyps, ∃ h' ∈ st.hyps, Term.aeq h h' = true := by
+  unfold Thm.canProve
+  rw [Bool.and_eq_true, List.all_eq_true]
+  constructor
+  · rintro ⟨h1, h2⟩
+    exact ⟨h1, fun h hm => (Thm.memAeq_iff h _).1 (h2 h hm)⟩
+  · rintro ⟨h1, h2⟩
+    exact ⟨h1, fun h hm => (Thm.memAeq_iff h _).2 (h2 h hm)⟩
+
+/-- a sequent that `can_prove` a sequent passing `check_thm_type` passes it too (its terms are
+alpha-equivalent to terms of the other) -/
+theorem canProve_wt (r st : Thm) (hc : Thm.canProve r st = true)
+    (hst : Thm.checkThmTypeSig st = true) : Thm.checkThmTypeSig r = true := by
+  obtain ⟨hp, hh⟩ := (Thm.canProve_iff r st).1 hc
+  obtain ⟨⟨t1, t2⟩, s0⟩ := (Thm.checkThmTypeSig_iff st).1 hst
+  obtain ⟨s1, s2⟩ := (Thm.sigOK_iff st).1 s0
+  rw [Thm.checkThmTypeSig_iff, Thm.sigOK_iff]
+  refine ⟨⟨fun h hm => ?_, ?_⟩, fun h hm => ?_, ?_⟩
+  · obtain ⟨h', hm', ha⟩ := hh h hm
+    rw [Term.checkedGetType_aeq h h' ha]; exact t1 h' hm'
+  · rw [Term.checkedGetType_aeq _ _ hp]; exact t2
+  · obtain ⟨h', hm', ha⟩ := hh h hm
+    rw [sigOK_aeq h h' ha]; exact s1 h' hm'
+  · rw [sigOK_aeq _ _ hp]; exact s2
+
+/-- weakening: what is kept for a step with a stated sequent is good when the computed one is -/
+theorem canProve_good (r st : Thm) (hc : Thm.canProve r st = true)
+    (hst : Thm.checkThmTypeSig st = true) (hr : GoodIn C r) : GoodIn C st := by
+  obtain ⟨hp, hh⟩ := (Thm.canProve_iff r st).1 hc
+  refine ⟨hst, fun M ρ hρ hc' hyp => ?_⟩
+  apply (holds_aeq M ρ _ _ hp).1
+  apply hr.valid M ρ hρ hc'
+  intro h hm
+  obtain ⟨h', hm', ha⟩ := hh h hm
+  exact (holds_aeq M ρ h h' ha).2 (hyp h' hm')
+
+/-- the sequent a step computes is good for the class as soon as it passes `check_thm_type`, if
+every stored theorem is good for the class and `⊢ _VAR x` is valid for the class -/
+theorem applyRuleAx_sound_in (hcl : ClosedClass C) (axs : List (String × Thm))
+    (hax : ∀ p ∈ axs, GoodIn C p.2) (hvar : ∀ n T M, ValidIn C M (Thm.mkVAR n T))
+    (rule : String) (arg : ArgAx) (prems : List Thm) (th : Thm)
+    (hp : ∀ p ∈ prems, GoodIn C p)
+    (h : applyRuleAx axs rule arg prems = .ok th) (hwt : Thm.checkThmTypeSig th = true) :
+    GoodIn C th := by
+  unfold applyRuleAx at h
   split at h
   · split at h
     · rename_i s
       split at h
       · rename_i th0 hl
-        split at h
-        · cases h
-          exact hax (s, th) (mem_of_lookup_eq_some axs s th hl)
-        · cases h
+        cases h
+        exact hax (s, th) (mem_of_lookup_eq_some axs s th hl)
       · cases h
     · cases h
   · split at h
-    · rename_i a
-      exact prim_sound_in hcl rule a prems th hp ha h
-    · cases h
+    · split at h
+      · rename_i n T
+        cases h
+        exact ⟨hwt, hvar n T⟩
+      · cases h
+    · split at h
+      · rename_i a
+        exact applyRule_sound_in hcl rule a prems th hp h hwt
+      · cases h
+
+/-- One checker step (any rule of the model, with or without a stated sequent): premises good ⇒
+what the checker keeps is good. -/
+theorem checkStepSt_sound_in (hcl : ClosedClass C) (axs : List (String × Thm))
+    (hax : ∀ p ∈ axs, GoodIn C p.2) (hvar : ∀ n T M, ValidIn C M (Thm.mkVAR n T))
+    (rule : String) (arg : ArgAx) (prems : List Thm) (stated : Option Thm) (th : Thm)
+    (hp : ∀ p ∈ prems, GoodIn C p)
+    (h : checkStepSt axs rule arg prems stated = .ok th) : GoodIn C th := by
+  unfold checkStepSt at h
+  cases hr : applyRuleAx axs rule arg prems with
+  | error e => rw [hr] at h; cases h
+  | ok res =>
+    rw [hr] at h
+    simp only [finishStep] at h
+    cases stated with
+    | none =>
+      simp only at h
+      split at h
+      · rename_i hwt
+        cases h
+        exact applyRuleAx_sound_in hcl axs hax hvar rule arg prems th hp hr hwt
+      · cases h
+    | some st =>
+      simp only at h
+      split at h
+      · rename_i hc
+        split at h
+        · rename_i hst
+          cases h
+          exact canProve_good res th hc hst
+            (applyRuleAx_sound_in hcl axs hax hvar rule arg prems res hp hr (canProve_wt res th hc hst))
+        · cases h
+      · cases h
+
+theorem checkStepAx_sound_in (hcl : ClosedClass C) (axs : List (String × Thm))
+    (hax : ∀ p ∈ axs, GoodIn C p.2) (hvar : ∀ n T M, ValidIn C M (Thm.mkVAR n T))
+    (rule : String) (arg : ArgAx) (prems : List Thm) (th : Thm)
+    (hp : ∀ p ∈ prems, GoodIn C p)
+    (h : checkStepAx axs rule arg prems = .ok th) : GoodIn C th :=
+  checkStepSt_sound_in hcl axs hax hvar rule arg prems none th hp h
 
 theorem runScriptAx_sound_in (hcl : ClosedClass C) (axs : List (String × Thm))
-    (hax : ∀ p ∈ axs, GoodIn C p.2) (steps : List StepAx) (acc res : List Thm)
-    (hacc : ∀ th ∈ acc, GoodIn C th) (hs : ∀ s ∈ steps, s.arg.sigOK = true)
+    (hax : ∀ p ∈ axs, GoodIn C p.2) (hvar : ∀ n T M, ValidIn C M (Thm.mkVAR n T))
+    (steps : List StepAx) (acc res : List Thm)
+    (hacc : ∀ th ∈ acc, GoodIn C th)
     (h : runScriptAx axs steps acc = .ok res) : ∀ th ∈ res, GoodIn C th := by
   induction steps generalizing acc with
   | nil =>
@@ -628,24 +751,23 @@ theorem runScriptAx_sound_in (hcl : ClosedClass C) (axs : List (String × Thm))
       rcases List.mem_append.1 hth' with h1 | h1
       · exact hacc th' h1
       · simp at h1; subst h1; exact hg
-    have hrest : ∀ s' ∈ rest, s'.arg.sigOK = true := fun s' hs' => hs s' (by simp [hs'])
     simp only [runScriptAx] at h
     split at h
-    · cases hc : checkStepAx axs s.rule s.arg [] with
+    · cases hc : checkStepSt axs s.rule s.arg [] s.stated with
       | error e => rw [hc] at h; cases h
       | ok th =>
         rw [hc] at h
         simp only at h
         have hg : GoodIn C th :=
-          checkStepAx_sound_in hcl axs hax s.rule s.arg [] th (fun _ hm => by cases hm)
-            (hs s (by simp)) hc
-        exact ih (acc ++ [th]) (hext th hg) hrest h
+          checkStepSt_sound_in hcl axs hax hvar s.rule s.arg [] s.stated th
+            (fun _ hm => by cases hm) hc
+        exact ih (acc ++ [th]) (hext th hg) h
     · cases hm : lookupPrems acc s.prevs with
       | error e => rw [hm] at h; cases h
       | ok prems =>
         rw [hm] at h
         simp only at h
-        cases hc : checkStepAx axs s.rule s.arg prems with
+        cases hc : checkStepSt axs s.rule s.arg prems s.stated with
         | error e => rw [hc] at h; cases h
         | ok th =>
           rw [hc] at h
@@ -653,7 +775,7 @@ theorem runScriptAx_sound_in (hcl : ClosedClass C) (axs : List (String × Thm))
           have hprems : ∀ p ∈ prems, GoodIn C p :=
             fun p hpm => hacc p (lookupPrems_mem_acc acc s.prevs prems hm p hpm)
           have hg : GoodIn C th :=
-            checkStepAx_sound_in hcl axs hax s.rule s.arg prems th hprems (hs s (by simp)) hc
-          exact ih (acc ++ [th]) (hext th hg) hrest h
+            checkStepSt_sound_in hcl axs hax hvar s.rule s.arg prems s.stated th hprems hc
+          exact ih (acc ++ [th]) (hext th hg) h
 
 end Holpy
